@@ -603,6 +603,29 @@ def C19_normalized_request_line_exceeds_the_limit():
     r = asyncio.run(go())
     return r == "sent" and len(sent[0]) > 1024
 
+@witness
+def C14_failed_upload_deletes_a_file_it_did_not_create():
+    """A file that happens to carry the temporary name of an upload (".<name>.<16 hex>.tmp") makes the upload fail - and the
+    clean-up of the failed upload must not delete that file (found by the Gen = Model proof of the upload handler)."""
+    from nauyaca.server import handler as H
+    from nauyaca.protocol.request import TitanRequest
+    d = tempfile.mkdtemp(dir="/var/tmp", prefix="nvw-")
+    saved = H.secrets.token_hex
+    try:
+        up = os.path.join(d, "up"); os.makedirs(up)
+        H.secrets.token_hex = lambda n=None: "00112233aabbccdd"
+        foreign = os.path.join(up, ".note.gmi.00112233aabbccdd.tmp")
+        open(foreign, "wb").write(b"someone else's data")
+        h = H.FileUploadHandler(up)
+        req = TitanRequest.from_line("titan://h/note.gmi;size=3"); req.content = b"abc"
+        try: r = asyncio.run(h.handle_upload(req)); status = r.status
+        except Exception: status = None
+        gone = not os.path.exists(foreign) or open(foreign, "rb").read() != b"someone else's data"
+        return status != 20 and gone
+    finally:
+        H.secrets.token_hex = saved
+        shutil.rmtree(d)
+
 # MAIN
 if __name__ == "__main__":
     names = sys.argv[1:] or sorted(W)
